@@ -189,8 +189,10 @@ func c06(r *sim.R) *sim.Violation {
 		workers := []int{1, 2, 4}[t.Draw(3)]
 		fired := false
 		if qi == 0 && midAt >= 0 {
-			// a sequential reader, so that "the k-th operation of the query" is well defined
+			// a sequential reader over one interface, so that "the k-th operation of the query" is
+			// well defined (the engine visits several interfaces in Go map order)
 			workers = 1
+			q.Ifaces = []string{vIface}
 			ops := 0
 			wd.fs.Yield = func(op *simfs.Op) {
 				if op.Proc.Name != "r" || fired {
